@@ -687,6 +687,16 @@ def call_builtin(ex, name, args, kw, node):
         x, a, v = args
         ex.assign(node.args[0], ex.store_index(x, a, v), mutate=True)
         return NONE
+    if name == "getattr" and len(args) == 3 and args[2] is NONE and isinstance(args[0], ObjV) and isinstance(args[1], StrV) \
+            and args[1].s in ex.prop.fields and args[1].s in ex.prop.field_owners and args[0].cls in (None, "?"):
+        # getattr(obj, "field", None) on an object whose class is only known dynamically: the value if
+        # its class declares the field, else None
+        x, a = args[0], args[1]
+        subs = set()
+        for o in ex.prop.field_owners[a.s]:
+            subs |= ex.prop.subclasses(o)
+        has = z3.Or(*[ex.prop.class_tag(x.ref) == ex.prop.class_id(s_) for s_ in sorted(subs)])
+        return OptV(z3.Not(has), ex.read_field(x, a.s))
     if name == "getattr":
         x, a = args[0], args[1]
         if isinstance(x, ObjV) and isinstance(a, StrV) and a.s in ex.prop.fields:
